@@ -131,8 +131,8 @@ def recipe_case(items):
     bt = rt.bt()
     viols = []
     n = raised = 0
-    data = T.frame(T.TABLES["exact"], 4, ["a", "b", "c"])
     for recipe in items:
+        data = T.frame(T.TABLES["exact"], 4, ["a", "b", "c"])
         n += 1
         dup = has_duplicates(recipe)
         try:
@@ -192,6 +192,14 @@ def recipe_case(items):
 
                 touch(root, recipe)
                 root.update(data.index[0])
+                mem2, pre2 = root.members, preorder(root)
+                if [id(x) for x in mem2] != [id(x) for x in pre2]:
+                    out.append(("members_after_lazy_creation", [x.full_name for x in pre2], [x.full_name for x in mem2]))
+                secs = [x.full_name for x in pre2 if not isinstance(x, bt.core.StrategyBase)]
+                if sorted(x.full_name for x in root.securities) != sorted(secs):
+                    out.append(("securities_after_lazy_creation", sorted(secs), sorted(x.full_name for x in root.securities)))
+                if list(data.columns) != ["a", "b", "c"] or data.shape != (4, 3):
+                    out.append(("input_frame_mutated", ["a", "b", "c"], list(data.columns)))
                 for x in root.members:
                     if x.integer_positions is not False:
                         out.append(("pushed_integer_positions", {"node": x.full_name, "integer_positions": False}, x.integer_positions))
@@ -343,6 +351,14 @@ def variants_case(spec):
         res[tree] = r
     viols = []
     exact = spec.get("integer") and spec.get("alpha", "exact") == "exact"
+    st = spec.get("stack") or {}
+    # two stock algos look at target.children / target.positions, which do not contain a lazily
+    # declared security before its first trade
+    sig = None
+    if st.get("select") == "types":
+        sig = "lazy_vs_eager|SelectTypes sees only children that already exist"
+    elif st.get("gate") == "pte":
+        sig = "lazy_vs_eager|PTE_Rebalance returns True while no child exists yet"
     base = res["flat_eager"]["hist"]
     cap = float(spec.get("capital", 1e6))
 
@@ -356,7 +372,7 @@ def variants_case(spec):
         for s in ("prices", "values", "cash", "fees"):
             a, b = series(base, "r", s), series(h, "r", s)
             if not same(a, b, exact, cap if s != "prices" else 100.0):
-                viols.append({"rule": "lazy_equals_eager", "expected": {"variant": "flat_eager", "series": "r." + s, "values": a}, "observed": {"variant": tree, "values": b}})
+                viols.append({"rule": "lazy_equals_eager", "sig": sig, "expected": {"variant": "flat_eager", "series": "r." + s, "values": a}, "observed": {"variant": tree, "values": b}})
                 break
         for tk in ("a", "b", "c", "d"):
             a = series(base, "r>" + tk, "positions")
@@ -364,7 +380,7 @@ def variants_case(spec):
             if b is None:
                 b = [0.0] * len(a)
             if not same(a, b, exact, max(1.0, max(abs(x) for x in a))):
-                viols.append({"rule": "lazy_equals_eager", "expected": {"variant": "flat_eager", "series": tk + ".positions", "values": a}, "observed": {"variant": tree, "values": b}})
+                viols.append({"rule": "lazy_equals_eager", "sig": sig, "expected": {"variant": "flat_eager", "series": tk + ".positions", "values": a}, "observed": {"variant": tree, "values": b}})
                 break
     return ("ok", viols[:3], len(res["flat_eager"]["trades"]))
 
@@ -433,7 +449,7 @@ def run(ctx):
     ctx.assumptions += [
         "lazy vs eager: bit-for-bit with integer positions on the exact alphabet, 1e-9 relative otherwise; integer positions on decimal data are left out (a different summation order may flip a floor)",
         "a lazily declared name followed by an eager node of the same name is tolerated by the library (the eager node wins)",
-        "SelectTypes is left out of the lazy/eager relation: it can only see children that exist (recorded limitation)",
+        "SelectTypes and PTE_Rebalance look at target.children / target.positions, which do not contain a lazily declared security before its first trade: recorded as known findings",
     ]
     kinds = ["py"] if ctx.tier == "quick" else ["py", "cy"]
     recs = recipes(ctx.tier)
@@ -441,8 +457,6 @@ def run(ctx):
     fam = [s for s in R.family(ctx.tier if ctx.tier == "quick" else "quick", ctx.seed) if s["tree"] == "flat"]
     vspecs = []
     for s in fam:
-        if s["stack"]["select"] == "types":
-            continue
         vspecs.append(dict(s, integer=True, alpha="exact"))
         vspecs.append(dict(s, integer=False, alpha="decimal", fee="propdec"))
     if ctx.tier == "quick":
